@@ -4,10 +4,18 @@ import Dnp3.Proofs.OutstationC04
 # C04 — OPERATE actuates only after its own matching, fresh, directly preceding SELECT
 
 Property theorems over the outstation session model for ALL states and histories, restated
-verbatim from `Dnp3.Proofs.OutstationC04` (definitions `isSbo`, `CurFrag`, `stepNow`,
-`SelectAllZero`, `rxAccept`, … live there).  The full trace statement is false of the code
-(known defect D9: a byte-identical repeat of ANY last non-READ request re-bases the select's
-frame id): `operate_needs_select_partial` + `operate_after_intervening_write_counterexample`.
+verbatim from `Dnp3.Proofs.OutstationC04` (definitions `isSbo`, `isExec`, `CurFrag`, `stepNow`,
+`SelectAllZero`, `rxAccept`, … live there).  Defect D9 (a byte-identical repeat of ANY last non-READ
+request re-based the stored select's frame id) is repaired: only a retransmission of the stored SELECT
+itself that directly follows it re-bases (`step_select_change` (b)), and the FULL trace statement holds:
+`operate_needs_select` — a select-before-operate actuation at step `k` has a matching, fresh, fully
+successful SELECT at a step `j < k`, no effective `.cut` in between, and every fragment delivered strictly
+between `j` and `k` is a retransmission of that SELECT (unicast, function 3, same sequence number, same object
+octets) that executed nothing (for runs from an empty transport reader that are shorter than 2^32 steps: the
+`u32` frame counter wraps, in the model as in the Rust code).  It rests on `step_pending` (every step consumes
+the fragment it works on) and `step_frameId`.  The former counterexample run is kept as the regression example
+`operate_after_intervening_write_rejected`, next to `select_retransmitted_then_operate_example` (the
+legitimate retransmission path still actuates) and `select_stray_retransmitted_then_operate_rejected`.
 -/
 namespace Dnp3.Props.C04
 open Dnp3 Dnp3.Proofs.C04
@@ -60,8 +68,11 @@ theorem operate_rejected_no_callbacks {a a' : Acc} {seq fid : Nat} {hs : List Ob
     (c) cleared by `.cut`, or the fragment the step works on was a unicast request with well-formed objects and
     (a) function 3 that was new (not a repeat), every handler status was 0 and the echo fitted:
         `select = ⟨seq, frame id, now, raw objects⟩`; or
-    (b) it took the `repeatNonRead` branch — ANY non-READ function whose sequence number and bytes equal the
-        last recorded request (defect D9) — and only `frameId` was overwritten with this fragment's id. -/
+    (b) it took the `repeatNonRead` branch (its sequence number and bytes equal the last recorded request, so
+        the step executed nothing) AND it is a retransmission of the stored SELECT itself that directly follows
+        it — function 3, the select's sequence number, the select's object octets, and a frame id that is the
+        select's plus one (mod 2^32) — and only `frameId` was overwritten with this fragment's id
+        (`update_frame_id_on_repeat`; defect D9 — a repeat of ANY last non-READ request re-based — is repaired). -/
 theorem step_select_change (env : OEnv) (s : OState) (i : OInput) :
     (Outstation.step env s i).1.select = s.select ∨
     (isCut i = true ∧ (Outstation.step env s i).1.select = none) ∨
@@ -74,7 +85,9 @@ theorem step_select_change (env : OEnv) (s : OState) (i : OInput) :
           SelectAllZero (Outstation.step env s i).2) ∨
        ((s.deferred = none → ¬ isCut i = true →
             ∃ last, s.lastReq = some last ∧ last.seq = ctrl.seq ∧ last.frag = f.data) ∧
+          (∀ o ∈ (Outstation.step env s i).2, isExec o = false) ∧
           ∃ sel, s.select = some sel ∧
+            func = 3 ∧ sel.seq = ctrl.seq ∧ (sel.frameId + 1) % 2 ^ 32 = f.id ∧ sel.objects = raw ∧
             (Outstation.step env s i).1.select = some { sel with frameId := f.id })) :=
   @Dnp3.Proofs.C04.step_select_change env s i
 
@@ -92,18 +105,37 @@ theorem step_frameId (env : OEnv) (s : OState) (i : OInput) :
 theorem start_select (cfg : OCfg) (evMax : Nat) : (Outstation.start cfg evMax).1.select = none :=
   @Dnp3.Proofs.C04.start_select cfg evMax
 
-/-- **C04.5 (`operate_needs_select_partial`)**: along EVERY input list, from any state without a stored
-    SELECT (in particular `Outstation.start`), a select-before-operate actuation at step `k` implies a step
+/-- **C04.6 (every step consumes the fragment it works on)**: no fragment is left over for a later step — after
+    every step of a live task the transport reader is empty (`pending = none`).  (The confirm waits may retain a
+    fragment — `Confirm::NewRequest` — but the wait entered next, or the idle pass, handles it within the same
+    step: `settle`.)  An input that is ignored (`setScript`, a rejected `.rx`, `.cut` …) keeps the state. -/
+theorem step_pending (env : OEnv) (s : OState) (i : OInput) (h : s.pending = none ∨ isDead s = true) :
+    (Outstation.step env s i).1.pending = none ∨ isDead (Outstation.step env s i).1 = true :=
+  @Dnp3.Proofs.C04.step_pending env s i h
+
+/-- the state after construction has no fragment pending -/
+theorem start_pending (cfg : OCfg) (evMax : Nat) : (Outstation.start cfg evMax).1.pending = none :=
+  @Dnp3.Proofs.C04.start_pending cfg evMax
+
+/-- **C04.5 (`operate_needs_select`, full trace statement)**: along EVERY input list, from any state without a
+    stored SELECT (in particular `Outstation.start`), a select-before-operate actuation at step `k` implies a step
     `j < k` that handled a unicast, well-formed, new function-3 request whose handler statuses were all 0,
     with byte-identical raw objects and sequence number one less (mod 16), no effective `.cut` in between,
-    and the clock advanced by at most `stimeout` between the two requests.
+    and the clock advanced by at most `stimeout` between the two requests [so far: the former
+    `operate_needs_select_partial`]; AND every fragment delivered strictly between `j` and `k` is a
+    retransmission of that SELECT that executed nothing: for every `j < m < k` and every fragment `f` step `m`
+    works on, `f` is unicast, parses as a well-formed function-3 request with the SELECT's object octets and the
+    SELECT's sequence number, and no executing callback (`isExec`: control / write / freeze / time / restart,
+    begin/end fragment) appears in the outputs of step `m`.
 
-    MISSING relative to the full statement (kept below): the constraint on the fragments delivered strictly
-    between `j` and `k`.  What the model guarantees there (by `step_select_change` (b) and `step_frameId`) is
-    only `f_k.id = (sel.frameId + 1) mod 2^32` where `sel.frameId` is the id of the SELECT fragment OR of the
-    last fragment that took the `repeatNonRead` branch — see `operate_after_intervening_write_counterexample`
-    (defect D9), which refutes the full statement. -/
-theorem operate_needs_select_partial (env : OEnv) (s0 : OState) (h0 : s0.select = none) (inputs : List OInput)
+    Hypotheses of the last conjunct (stated inside, the first ten conjuncts are unconditional):
+    * `s0.pending = none`: the transport reader is empty in the initial state (true after construction,
+      `start_pending`; afterwards it is empty before every step, `step_pending`).  A fragment left in the reader
+      of an arbitrary `s0` carries an arbitrary frame id, unrelated to the frame counter.
+    * `k < 2 ^ 32`: the frame counter is a `u32` that wraps (`step_frameId`; Rust `u32::wrapping_add`), so
+      after exactly 2^32 delivered fragments the id "select's id + 1" comes round again — in the model as in the
+      Rust code.  Runs shorter than 2^32 inputs cannot alias. -/
+theorem operate_needs_select (env : OEnv) (s0 : OState) (h0 : s0.select = none) (inputs : List OInput)
     (k : Nat) (hk : k < inputs.length) (o : OOut) (ho : o ∈ outsAt env s0 inputs k hk) (hsbo : isSbo o = true) :
     ∃ (j : Nat) (hj : j < inputs.length), j < k ∧ ∃ fj cj hsj fk ck hsk raw,
       CurFrag env (stateAt env s0 inputs j) inputs[j] fj ∧
@@ -114,27 +146,63 @@ theorem operate_needs_select_partial (env : OEnv) (s0 : OState) (h0 : s0.select 
       ck.seq = seq4Next cj.seq ∧
       stepNow (stateAt env s0 inputs k) inputs[k] - stepNow (stateAt env s0 inputs j) inputs[j] ≤
         s0.cfg.stimeout ∧
-      ∀ (m : Nat) (hm : m < inputs.length), j < m → m < k → isCut inputs[m] = true →
-        isDead (stateAt env s0 inputs m) = true :=
-  @Dnp3.Proofs.C04.operate_needs_select_partial env s0 h0 inputs k hk o ho hsbo
+      (∀ (m : Nat) (hm : m < inputs.length), j < m → m < k → isCut inputs[m] = true →
+        isDead (stateAt env s0 inputs m) = true) ∧
+      (s0.pending = none → k < 2 ^ 32 →
+        ∀ (m : Nat) (hm : m < inputs.length), j < m → m < k →
+          ∀ f, CurFrag env (stateAt env s0 inputs m) inputs[m] f →
+            ∃ cm hsm, parseRequest f.data = .request cm 3 (.ok hsm) raw ∧ f.broadcast = none ∧
+              cm.seq = cj.seq ∧ ∀ o ∈ outsAt env s0 inputs m hm, isExec o = false) :=
+  @Dnp3.Proofs.C04.operate_needs_select env s0 h0 inputs k hk o ho hsbo
 
-/-- `operate_needs_select_partial` applies to every run from the state after construction
-    (`start_select`); stated here for the first conjuncts only, the full conclusion is obtained by
-    `operate_needs_select_partial env _ (start_select cfg evMax) …` -/
-theorem operate_needs_select_partial_start (env : OEnv) (cfg : OCfg) (evMax : Nat) (inputs : List OInput)
+/-- `operate_needs_select` applies to every run from the state after construction (`start_select`,
+    `start_pending`); stated here for the SELECT step and the fragments in between only, the full conclusion is
+    obtained by `operate_needs_select env _ (start_select cfg evMax) …` -/
+theorem operate_needs_select_start (env : OEnv) (cfg : OCfg) (evMax : Nat) (inputs : List OInput)
     (k : Nat) (hk : k < inputs.length) (o : OOut)
     (ho : o ∈ outsAt env (Outstation.start cfg evMax).1 inputs k hk) (hsbo : isSbo o = true) :
     ∃ (j : Nat) (hj : j < inputs.length), j < k ∧ ∃ fj cj hsj raw,
       CurFrag env (stateAt env (Outstation.start cfg evMax).1 inputs j) inputs[j] fj ∧
       parseRequest fj.data = .request cj 3 (.ok hsj) raw ∧
-      SelectAllZero (outsAt env (Outstation.start cfg evMax).1 inputs j hj) :=
-  @Dnp3.Proofs.C04.operate_needs_select_partial_start env cfg evMax inputs k hk o ho hsbo
+      SelectAllZero (outsAt env (Outstation.start cfg evMax).1 inputs j hj) ∧
+      (inputs.length < 2 ^ 32 →
+        ∀ (m : Nat) (hm : m < inputs.length), j < m → m < k →
+          ∀ f, CurFrag env (stateAt env (Outstation.start cfg evMax).1 inputs m) inputs[m] f →
+            ∃ cm hsm, parseRequest f.data = .request cm 3 (.ok hsm) raw ∧ f.broadcast = none ∧
+              cm.seq = cj.seq ∧ ∀ o ∈ outsAt env (Outstation.start cfg evMax).1 inputs m hm, isExec o = false) :=
+  @Dnp3.Proofs.C04.operate_needs_select_start env cfg evMax inputs k hk o ho hsbo
 
-/-- **D9**: an OPERATE is executed although a WRITE (and its retransmission) was received between the SELECT
-    and the OPERATE: the retransmitted WRITE takes the `repeatNonRead` branch, which re-bases the stored
-    SELECT's frame id, so the OPERATE "directly follows". -/
-theorem operate_after_intervening_write_counterexample :
-    sboCount (Outstation.run {} (Outstation.start {} 10).1 cexInputs).2 = 1 :=
-  @Dnp3.Proofs.C04.operate_after_intervening_write_counterexample 
+/-- **D9 regression** (the former counterexample run): the OPERATE after a WRITE and its retransmission is NOT
+    executed any more — the retransmitted WRITE takes the `repeatNonRead` branch, which no longer re-bases the
+    stored SELECT's frame id (only a retransmission of the SELECT itself does). -/
+theorem operate_after_intervening_write_rejected :
+    sboCount (Outstation.run {} (Outstation.start {} 10).1 cexInputs).2 = 0 :=
+  @Dnp3.Proofs.C04.operate_after_intervening_write_rejected
+
+/-- without the retransmission the OPERATE is rejected as well -/
+theorem operate_after_single_write_rejected :
+    sboCount (Outstation.run {} (Outstation.start {} 10).1
+      [.rx 1 1024 cexSelect, .rx 1 1024 cexWrite, .rx 1 1024 cexOperate]).2 = 0 :=
+  @Dnp3.Proofs.C04.operate_after_single_write_rejected
+
+/-- and SELECT directly followed by OPERATE (seq 1) is executed exactly once -/
+theorem select_operate_executed_once_example :
+    sboCount (Outstation.run {} (Outstation.start {} 10).1
+      [.rx 1 1024 cexSelect, .rx 1 1024 cexOperate]).2 = 1 :=
+  @Dnp3.Proofs.C04.select_operate_executed_once_example
+
+/-- the legitimate path still works: SELECT, its byte-identical retransmission (which re-bases the select's frame
+    id), OPERATE — executed exactly once -/
+theorem select_retransmitted_then_operate_example :
+    sboCount (Outstation.run {} (Outstation.start {} 10).1
+      [.rx 1 1024 cexSelect, .rx 1 1024 cexSelect, .rx 1 1024 cexOperate]).2 = 1 :=
+  @Dnp3.Proofs.C04.select_retransmitted_then_operate_example
+
+/-- a stray fragment (here a solicited CONFIRM) between the SELECT and its retransmission breaks the chain: the
+    retransmission does not directly follow the SELECT, the select is not re-based, the OPERATE is rejected -/
+theorem select_stray_retransmitted_then_operate_rejected :
+    sboCount (Outstation.run {} (Outstation.start {} 10).1
+      [.rx 1 1024 cexSelect, .rx 1 1024 cexConfirm, .rx 1 1024 cexSelect, .rx 1 1024 cexOperate]).2 = 0 :=
+  @Dnp3.Proofs.C04.select_stray_retransmitted_then_operate_rejected
 
 end Dnp3.Props.C04
